@@ -27,6 +27,11 @@ META: dict[str, dict[str, str]] = {
         "note": "qrules Topology API; is_opposite_helicity_state is a total order on siblings." + COMMON_NOTE,
         "technique": "static analysis: reaching-definition provenance of key vs value, AST role matching after local inlining, sibling agreement over call sites",
     },
+    "C06": {
+        "level": "Decides the structural causes of history / hash-seed dependence on the formulate path (call graph with class-hierarchy approximation, 115 functions measured): (a) no alias of the mutable part of a memoised result is mutated or handed out uncopied (alias flow to a fixed point through wrappers and polymorphic calls, tuple components distinguished); (b) formulate resets its scratch state first, reset re-creates every field, and every other write targets locals / objects under construction; (c) no unordered container with hash-seed-sensitive elements reaches an order-preserving sink (taint with sanitisers sorted/min/max/len, inter-procedural sink-parameter summaries), int-id sets and insertion-history-only sets are classified separately; (d) model mapping fields are converted into new (sorted) mappings. Fresh-process equality beyond these causes and thread interleavings are not decided.",
+        "note": "functools.cache semantics; CPython hashing of small ints vs str/SymPy objects; qrules id sets are ints." + COMMON_NOTE,
+        "technique": "static analysis: alias/escape analysis of memoised results, write-effect classification over the call graph, unordered-to-ordered taint analysis with sink-parameter summaries",
+    },
     "C07": {
         "level": "Decides: for every producer merged into HelicityAdapter.create_expressions (found from the call graph) each named store's value derives from the same state id as its name (so equal names carry equal quantities across registered topologies; K1 recorded as known finding), and the definitions of InvariantMass, Phi, Theta, component slices, norms, mass naming and the mass store equal the documented formulas. Agreement with an independent numerical computation is not decided.",
         "note": "qrules get_originating_final_state_edge_ids semantics." + COMMON_NOTE,
